@@ -31,6 +31,13 @@ CORPUS = [
     (["10 I=0", "20 WHILE I<3:I=I+1", "30 IF I=2 THEN 50", "40 PRINT I", "50 WEND", "60 PRINT \"X\""], []),
     (["10 FOR I=1 TO 0:PRINT \"ONCE\":NEXT", "20 FOR X=1 TO 2 STEP 0.5:PRINT X;:NEXT"], []),
     (["10 TRON", "20 GOSUB 100", "30 PRINT \"A\":GOTO 50", "40 REM", "50 TROFF", "60 END", "100 RETURN"], []),
+    # a branch whose target is the very end of the program, behind a final END
+    (["10 PRINT 1:IF 0 THEN END"], []),
+    (["10 PRINT 1:IF 0 THEN END", "20 REM"], []),
+    (["10 PRINT 1:GOTO 30", "20 END", "30 REM"], []),
+    (["10 GOSUB 30:PRINT 2:END", "30 PRINT 1:RETURN:END", "40 ' tail"], []),
+    (["10 FOR I=1 TO 2:PRINT I:NEXT:IF I=9 THEN END"], []),
+    (["0 X=X+1:PRINT X;", "5 IF 0 THEN PRINT \"NEVER\"", "10 IF X<3 THEN 0", "20 PRINT \"DONE\""], []),
 ]
 
 
